@@ -9,6 +9,7 @@ R4 actual-argument typing never adopts a wildcard signal
 from __future__ import annotations
 
 import ast
+import re
 
 from ..cfg import CFG, EXIT
 from ..core import AnalysisError, Func, Repo, Report, call_name, calls_in, chain, norm, walk_local
@@ -233,3 +234,25 @@ def run(repo: Repo, rep: Report, tier: str) -> None:
                 and norm(n.body[0].value) == "semantic_type" for n in walk_local(gat.node))
     rep.check(ok and guard, "C15-R4", "wildcard signals never become an output type through actual-argument typing",
               f"guarded set {sorted(wild[1]) if wild else None} covers {sorted(WILDCARDS)}; returns semantic_type" if ok and guard else "wildcard guard missing or incomplete", gat.loc())
+
+    # ---------------- R7 ---------------------------------------------------------------
+    rep.rule("C15-R7", "inside an inlined body an operand has the type of the actual argument: _get_actual_type_from_ref answers with the reference's own signal type whenever the "
+             "reference carries one that differs from the parameter's declared type (the test is on the reference's type, which is also the name used)")
+    from .util import canon as _c7, cguards as _g7
+    gat = repo.func("ExpressionLowerer._get_actual_type_from_ref")
+    c7 = _c7(gat)
+    rets7 = [n for n in walk_local(gat.node) if isinstance(n, ast.Return) and isinstance(n.value, ast.Call) and call_name(n.value) == "SignalValue"]
+    rep.floor("C15-R7", "returns that rebuild the operand type from the reference", len(rets7), 1)
+    for r7 in rets7:
+        t7 = c7.text(r7.value)
+        m7 = re.search(r"name=([^,]+),", t7)
+        nm7 = m7.group(1) if m7 else "?"
+        gs7 = [g for g, pol in _g7(gat, r7) if pol]
+        ok7 = any(g == f"{nm7} and {nm7} != get_signal_type_name(semantic_type)" or g == f"{nm7} and get_signal_type_name(semantic_type) != {nm7}" for g in gs7) or \
+            (any(g == nm7 for g in gs7) and any(g in (f"{nm7} != get_signal_type_name(semantic_type)",) for g in gs7))
+        rep.check(ok7, "C15-R7", "the operand type follows the actual argument whenever the reference carries a different signal type",
+                  f"name={nm7} under `{nm7} and {nm7} != declared`" if ok7 else f"name={nm7} but guarded by {[g[-80:] for g in gs7][-1:]}: a typed Signal passed for an `int` parameter is not recognised in the body, int-only arithmetic on it lands on a fresh signal", gat.loc(r7))
+
+    from .shared import borrow as _borrow15
+    _borrow15(repo, rep, "C10", "C10-R2", "C15-R8", "a constant argument bound to a Signal parameter has several consumers in the inlined body: the optimizer keeps it while any node, effect nodes included, still reads it",
+              select=lambda o: "scan for other consumers" in o.construct or "IREntityPropWrite" in o.construct or "IRMemWrite" in o.construct, floor=3)
